@@ -45,6 +45,10 @@ ENGINES = {
                             OPS={"newcyc", "new", "drop", "clone", "put", "collect", "upgrade", "dropw", "upgradef", "unwrap"}),
                 dict(MaxOps=7), {'quick': ['all-dev'], 'thorough': ['all-dev', 'all-rel']}),
     # saturation of the strong / weak counters at their real limits (bulk operations), later life of the object
+    # new_cyclic without finalization, replayed on a release build (debug_assert!-only code paths differ between profiles)
+    'cycnofin': _eng('cycnofin', dict(N=2, NS=1, NW=1, FIN=False, AUTO0=True, MaxOps=5, MaxFaults=1, MaxTraceK=1, MaxWRoots=2,
+                                      OPS={"newcyc", "new", "drop", "clone", "put", "collect", "upgrade", "dropw", "upgradef", "unwrap"}),
+                     dict(MaxOps=6), {'quick': ['nofin-rel'], 'thorough': ['nofin-dev', 'nofin-rel']}),
     'sat': _eng('sat', dict(N=2, NS=1, NW=1, MaxOps=6, MaxWRoots=2, OPS={"new", "sat", "clone", "drop", "put", "collect", "downgrade", "upgrade", "dropw", "unwrap"}),
                 dict(MaxOps=7), {'quick': ['all-dev'], 'thorough': ['all-dev', 'all-rel']}),
     # deep histories over two objects: finalizers that create / resurrect objects, sets mixing finalized and fresh objects
@@ -117,14 +121,14 @@ def _check_engine_builds():
 
 _check_engine_builds()
 
-GRAPH_ENGINES = ['resur', 'fault2', 'core', 'pin', 'nofin', 'fault', 'faultnofin', 'weak', 'weaknofin', 'auto', 'cyc', 'sat', 'clean', 'cleanfault', 'cleanauto']
+GRAPH_ENGINES = ['resur', 'fault2', 'core', 'pin', 'nofin', 'fault', 'faultnofin', 'weak', 'weaknofin', 'auto', 'cyc', 'sat', 'clean', 'cleanfault', 'cleanauto', 'cycnofin']
 
 # which engines decide which property (stage results are cached per tree, so properties share the work)
 PROP_ENGINES = {
-    'C01': ['resur', 'core', 'pin', 'nofin', 'fault', 'faultnofin', 'weak'],
+    'C01': ['resur', 'core', 'pin', 'nofin', 'fault', 'faultnofin', 'weak', 'cycnofin'],
     'C02': ['resur', 'core', 'pin', 'nofin', 'weak'],
     'C03': ['core', 'nofin', 'fault', 'weak', 'cyc'],
-    'C04': ['core', 'pin', 'fault', 'weak', 'sat'],
+    'C04': ['core', 'pin', 'fault', 'weak', 'sat', 'cycnofin'],
     'C05': ['resur', 'core', 'nofin', 'fault', 'weak'],
     'C06': ['live', 'resur', 'core', 'weak'],
     'C07': ['fault', 'fault2', 'faultnofin', 'weaknofin', 'cleanfault', 'auto', 'cyc'],
@@ -134,7 +138,7 @@ PROP_ENGINES = {
     'C11': ['core', 'auto', 'weak', 'cyc'],
     'C12': ['core', 'fault', 'clean', 'auto'],
     'C13': ['core', 'weak', 'cyc'],
-    'C14': ['cyc', 'auto'],
+    'C14': ['cyc', 'cycnofin', 'auto'],
     'C15': ['auto'],
     'C16': ['sat'],
     'C20': ['core'],
